@@ -11,6 +11,9 @@ CHECKS = {
  "C02": dict(cat="fault_enumeration", tech="exhaustive crash-point enumeration: every prefix of every base archive is repaired by the real code and checked against the original files",
     text="For ~460 base archives built by the real writer (single pieces over a whole period of chunk+tag so every final-chunk length occurs, 9 structurally rich interleaved programs) x 4 layer combinations x brotli levels x both repair modes, EVERY prefix length 0..len is given to the real repair; its output is re-opened with the normal reader and checked: no panic/hang, error only while the header is incomplete, each file a prefix of the original, files not reported unfinished identical, end-of-data status only when complete. Production-constant tier: every length in windows around header end, chunk edges, tag starts, end.",
     note="Scaled constants via cfg(mla_verif) for the exhaustive part; production tier is windowed; encrypted bases use fresh random keys (verdict depends on plaintext only).", ref="3/C02"),
+ "C04": dict(cat="fault_enumeration", tech="exhaustive fault placement (bit flips / cuts in every chunk) on archives with adversarial content, independent AES-GCM + brotli reference for the authenticated prefix",
+    text="Encrypted archives (real writer) whose file contents carry a well-formed block sequence at the start of every encryption chunk; for every chunk index: bit flips in payload and tag bytes and a cut at every offset of the chunk; the real repair runs in both modes. Oracle: authenticated output has original names only, each file a prefix of the original, nothing beyond what independent decoders (aes-gcm crate, brotli streaming API, own block parser) extract from the chunks before the first failing one, and is a prefix of the unauthenticated output.",
+    note="Scaled constants. Known finding (not repairable with the suite unedited): chunk 0 is emitted unauthenticated - faults located in chunk 0 are reported as KNOWN-FINDING. Adversarial continuation through brotli is not constructed.", ref="3/C04"),
  "C05": dict(cat="fault_enumeration", tech="exhaustive crash-point enumeration with monotonicity and reference-layout lower-bound oracles",
     text="The prefix sweep of C02 evaluated with: undamaged archive fully recovered with status EndOfOriginalArchiveData; r(n) <= r(n+1) for every adjacent pair of prefix lengths (implies all pairs); without compression, recovered bytes >= bytes present in the usable part of the stream computed from an independent block-stream layout (complete chunks only in authenticated mode). Plus ~6000 undamaged archives (all single-piece sizes x 3 entropies x levels, interleavings, program tree, many small entries) repaired at full length.",
     note="Scaled constants; production tier: windows plus a few undamaged archives of 4 MiB +- 1.", ref="3/C05"),
